@@ -4,6 +4,8 @@ import (
 	"context"
 	"errors"
 	"fmt"
+	"io"
+	"os"
 	"runtime"
 	"strings"
 	"sync/atomic"
@@ -73,7 +75,16 @@ func (ch c19) server(cfg c19cfg) *hs.Env {
 			if cfg.FailAt == i {
 				// whatever severity or code the error carries, a middleware error ends the connection
 				err := errors.New("middleware refuses the session")
-				switch (cfg.N + i) % 7 {
+				switch (cfg.N + 3*i) % 11 {
+				case 7:
+					// errors of the "try again later" kind: a middleware error is a middleware error
+					return ctx, fmt.Errorf("session store: %w", context.DeadlineExceeded)
+				case 8:
+					return ctx, tr.ErrTemporary
+				case 9:
+					return ctx, psqlerr.WithCode(fmt.Errorf("lookup: %w", os.ErrDeadlineExceeded), codes.ConnectionFailure)
+				case 10:
+					return ctx, fmt.Errorf("backend: %w", io.ErrUnexpectedEOF)
 				case 1:
 					return ctx, psqlerr.WithSeverity(err, psqlerr.LevelWarning)
 				case 2:
